@@ -16,10 +16,10 @@ def instances(tier, seed):
                             params={"log_n": logn}, symbolic=["every odd Galois element in (-2N, 2N)"], functions=[f"{M}::GaloisElement::galois_element_inv", f"{M}::mod_exp_u64"], timeout=1800,
                             core=logn in (1, 3, 6)))
     import c12
-    fused = c12.core_frame_instances(ops=(6, 7, 8))
+    fused = c12.core_frame_instances(ops=(6, 7, 8), tier=tier)
     for i in fused:
         i.core = i.core or ("automorphism_sub_negate_b12_12_kin24_kk36_ko24_ds1_dn2_r11_p3_sym2" in i.name)
-    return out + ks_instances() + fused
+    return out + ks_instances(tier) + fused
 
 
 KS_STUBS = [("poulpy_hal::source::Source::next_u64n", "crate::c03_ks::next_u64n_lcg"),
@@ -36,19 +36,21 @@ def secret8(rank, variant):
     return sum(d * 3**i for i, d in enumerate(digs)), [{0: 0, 1: 1, 2: -1}[d] for d in digs]
 
 
-def ks_instances():
+def ks_instances(tier="thorough"):
     out = []
     # (b, k_in, k_ksk, k_out, dsize, dnum, rank_in, rank_out, in_place); dnum*dsize >= input limbs and k_out >= k_ksk: exact
-    shapes = [(4, 8, 12, 12, 1, 2, 1, 1, False), (4, 12, 12, 12, 1, 3, 1, 1, True), (4, 8, 12, 12, 1, 2, 2, 1, False), (4, 8, 12, 12, 1, 2, 1, 2, False),
+    shapes = [(4, 8, 12, 12, 1, 2, 1, 1, False), (4, 8, 8, 8, 1, 2, 1, 1, True), (4, 12, 12, 12, 1, 3, 1, 1, True), (4, 8, 12, 12, 1, 2, 2, 1, False), (4, 8, 12, 12, 1, 2, 1, 2, False),
               (4, 8, 16, 16, 2, 1, 1, 1, False), (4, 12, 20, 20, 2, 2, 1, 1, False), (4, 8, 12, 12, 1, 3, 1, 1, False),
               (12, 24, 36, 36, 1, 2, 1, 1, False)]
     for b, kin, kksk, kout, dsize, dnum, ri, ro, inpl in shapes:
         for vin, vout, nsym in [(a, c, ns) for (a, c) in ((0, 2), (3, 0), (1, 1)) for ns in (2, 999)]:
             if nsym == 999 and not (vin == 0 and b == 4 and (kin, kksk, kout, dsize, dnum, ri, ro) == (8, 12, 12, 1, 2, 1, 1)):
                 continue
+            if nsym == 999 and tier != "thorough":
+                continue
             spi, seci = secret8(ri, vin)
             spo, seco = secret8(ro, vout)
-            core = (b, kin, kksk, kout, dsize, dnum, ri, ro, inpl, vin) in ((4, 8, 12, 12, 1, 2, 1, 1, False, 0), (4, 12, 12, 12, 1, 3, 1, 1, True, 0), (12, 24, 36, 36, 1, 2, 1, 1, False, 0)) and nsym == 2
+            core = (b, kin, kksk, kout, dsize, dnum, ri, ro, inpl, vin) in ((4, 8, 12, 12, 1, 2, 1, 1, False, 0), (4, 8, 8, 8, 1, 2, 1, 1, True, 0), (12, 24, 36, 36, 1, 2, 1, 1, False, 0)) and nsym == 2
             out.append(Instance(crate="hk_core", family="ks.glwe_keyswitch_assign" if inpl else "ks.glwe_keyswitch", name=f"c03_ks{'_assign' if inpl else ''}_b{b}_kin{kin}_kk{kksk}_ko{kout}_ds{dsize}_dn{dnum}_r{ri}{ro}_v{vin}{vout}_{'all' if nsym == 999 else f'sym{nsym}'}",
                                 call=f"crate::c03_ks::glwe_keyswitch_phase::<{b}, {kin}, {kksk}, {kout}, {dsize}, {dnum}, {bool_rs(inpl)}, 2048, 1024>({ri}, {ro}, {spi}, {spo}, {nsym})", unwind=8 * max((ri + 1) * -(-(kout if inpl else kin) // b), (ro + 1) * -(-kout // b)) + 10,
                                 params={"n": 8, "base2k": b, "k_in": kin, "k_ksk": kksk, "k_out": kout, "dsize": dsize, "dnum": dnum, "rank_in": ri, "rank_out": ro, "secret_in": seci, "secret_out": seco, "symbolic_input_words": "all" if nsym == 999 else nsym},
